@@ -557,6 +557,9 @@ fn family_weights(family: &str) -> [u32; 27] {
         "sessions" => [24, 5, 6, 3, 2, 1, 1, 1, 3, 4, 1, 1, 0, 1, 16, 8, 8, 2, 3, 1, 1, 0, 0, 0, 0, 4, 0],
         "readers" => [26, 5, 6, 3, 2, 1, 1, 1, 1, 4, 1, 1, 0, 1, 2, 20, 10, 3, 3, 1, 1, 0, 1, 1, 0, 1, 0],
         "equality" => [24, 8, 6, 3, 3, 1, 2, 1, 1, 4, 8, 5, 5, 3, 2, 1, 8, 4, 3, 1, 1, 1, 4, 3, 3, 1, 0],
+        // many value-less left-over nodes (remove_keep_tree, removal through views and entries) and
+        // insertions through both insert and the entry API on top of them
+        "leftover" => [20, 4, 14, 4, 2, 0, 1, 1, 1, 18, 1, 1, 0, 0, 8, 2, 6, 2, 5, 2, 1, 0, 0, 0, 0, 3, 0],
         "faulty" => [20, 6, 5, 3, 12, 1, 1, 1, 1, 16, 1, 1, 0, 1, 4, 2, 6, 2, 2, 1, 6, 0, 0, 0, 0, 1, 0],
         _ => [26, 8, 6, 4, 4, 1, 3, 2, 3, 10, 2, 2, 1, 1, 5, 4, 8, 3, 3, 2, 2, 1, 1, 1, 1, 2, 0],
     }
@@ -564,17 +567,17 @@ fn family_weights(family: &str) -> [u32; 27] {
 
 pub fn families_for(property: &str) -> &'static [&'static str] {
     match property {
-        "C15" => &["canon", "canon_entry", "general", "noncanon"],
-        "C11" => &["canon", "general", "noncanon", "canon_entry"],
+        "C15" => &["canon", "canon_entry", "general", "noncanon", "leftover"],
+        "C11" => &["canon", "general", "noncanon", "canon_entry", "leftover"],
         "C16" => &["churn", "churn", "general", "faulty"],
         "C13" | "C14" => &["sessions", "sessions", "noncanon"],
-        "C03" => &["readers", "general", "noncanon"],
+        "C03" => &["readers", "general", "noncanon", "leftover"],
         "C05" | "C06" | "C07" | "C08" => &["noncanon", "general", "readers", "canon"],
         "C19" => &["equality", "equality", "noncanon"],
         "C20" => &["faulty", "general", "noncanon", "sessions"],
-        "C10" => &["general", "noncanon", "churn", "faulty"],
-        "C01" | "C04" | "C18" => &["general", "noncanon", "canon_entry", "sessions", "faulty"],
-        _ => &["general", "noncanon", "canon"],
+        "C10" => &["general", "noncanon", "churn", "faulty", "leftover"],
+        "C01" | "C04" | "C18" => &["general", "noncanon", "canon_entry", "sessions", "faulty", "leftover"],
+        _ => &["general", "noncanon", "canon", "leftover"],
     }
 }
 
